@@ -4,6 +4,7 @@ package e2e
 // moments of the traffic against the real agent started through run.Reloader.
 
 import (
+	"fmt"
 	"os"
 	"testing"
 
@@ -88,7 +89,7 @@ func genReloadScenario(t *rapid.T) Scenario {
 		at := 0
 		for r := 0; r < nrel; r++ {
 			at += rapid.IntRange(0, max(span, 20)).Draw(t, "atMs")
-			gen.Reloads = append(gen.Reloads, ReloadSpec{AtMs: at, Variant: rapid.SampledFrom([]string{"valid", "valid", "invalid", "incompatible", "shifted"}).Draw(t, "variant")})
+			gen.Reloads = append(gen.Reloads, ReloadSpec{AtMs: at, Variant: rapid.SampledFrom([]string{"valid", "valid", "invalid", "incompatible", "shifted", "moreoutputs"}).Draw(t, "variant")})
 		}
 		gen.StopAfter = rapid.SampledFrom([]int{0, 5, 30, 120}).Draw(t, "stopAfter")
 		sc.Gens = append(sc.Gens, gen)
@@ -118,6 +119,9 @@ func runReload(sc Scenario) (res vh.Result) {
 	for _, r := range o.Reloads {
 		if r.QueuesWithFiles > 0 {
 			takeover = true
+		}
+		if r.Variant == "moreoutputs" {
+			res.Classes = append(res.Classes, fmt.Sprintf("reload-with-one-more-output(success=%v)", r.OK > 0))
 		}
 		if r.Variant == "valid" {
 			valid = true
